@@ -94,7 +94,9 @@ ERR = ("ERR",)
 
 VALID = {
     "string": [("v", "v"), ("a  b", "a  b"), ("", ""), ("a$$b", "a$b"),
-               ("(p)", "(p)"), ("<x>", "<x>"), ("42", "42")],
+               ("(p)", "(p)"), ("<x>", "<x>"), ("42", "42"),
+               # a backslash is an ordinary character, also at the end
+               ("C:\\data\\", "C:\\data\\")],
     "null": [("v", "v"), ("", ""), ("x y", "x y")],
     "integer": [("0", 0), ("42", 42), ("-7", -7), ("007", 7)],
     "boolean": [("yes", True), ("TRUE", True), ("On", True), ("no", False),
@@ -158,10 +160,11 @@ def convert(dt, text):
 # name vocabularies
 
 KEY_NAMES = {
-    "basic-key": ["alpha", "beta", "a-b", "gamma", "k.x", "delta9"],
+    "basic-key": ["alpha", "beta", "a-b", "gamma", "k.x", "delta9",
+                  "x--y"],
     "identifier": ["alpha", "Beta", "a_b", "gamma", "Delta9"],
     "ipaddr-or-hostname": ["alpha", "host-b", "h1.example", "gamma",
-                           "10.0.0.1"],
+                           "10.0.0.1", "x--y"],
 }
 WILD_KEYS = {
     "basic-key": ["wild", "Wild", "w-2", "zed"],
